@@ -1,4 +1,6 @@
 """C07 — unevaluated* see exactly what adjacent and in-place keywords evaluated."""
+import re
+
 from .. import gen_schema as gs
 from .. import suite, vjudge
 from ..wire import Obj, Num
@@ -16,7 +18,11 @@ RULE = ("schemas whose root carries unevaluatedProperties / unevaluatedItems nex
         "unevaluated* keyword; the closed recursive tree on chains of 10..22 nodes; 3 %) and dynamic extension points ($dynamicRef to a "
         "$dynamicAnchor overridden by 1..2 extension resources, each embedded or Loader-supplied, the override an anyOf / oneOf with "
         "overlapping branches; an extension resource is entered at its root or (35 %) by a JSON Pointer to an interior subschema that holds its "
-        "hop — usually a bare $ref, sometimes with a title / $comment — so that the resource is on the dynamic scope through that subschema only; 6 %). Non-trivial: >= 1 in-place applicator; distinct = operation text")
+        "hop — usually a bare $ref, sometimes with a title / $comment — so that the resource is on the dynamic scope through that subschema only; 6 %); "
+        "anyOf / oneOf with overlapping `properties` branches reached only through dependentSchemas (behind 0..2 annotation-preserving wrappers) under "
+        "unevaluatedProperties, trigger mostly present (5 %, and half of the dependentSchemas entries of the general generator); wide objects: 8..14 "
+        "properties from a pool of 16 names, usually 9..13 distinct names evaluated by several properties / patternProperties contributors, some "
+        "names evaluated repeatedly, zero to two names unevaluated (6 %). Non-trivial: >= 1 in-place applicator; distinct = operation text")
 ITEMS = [Num("1"), "a", True]
 
 
@@ -78,6 +84,9 @@ def inplace(rng, depth, kind, defs):
             o.set("else", sub())
         return o
     if r < 0.83 and kind == "obj":
+        if rng.random() < 0.5:
+            # an anyOf / oneOf of overlapping `properties` branches reached only through dependentSchemas (possibly one allOf further down)
+            return Obj([("dependentSchemas", Obj([(rng.choice(gs.NAMES), _overlap(rng, defs))]))])
         return Obj([("dependentSchemas", Obj([(rng.choice(gs.NAMES), sub())]))])
     if r < 0.93:
         body = sub()
@@ -89,6 +98,119 @@ def inplace(rng, depth, kind, defs):
     if isinstance(a, Obj) and isinstance(b, Obj):
         return Obj(a.kvs + [kv for kv in b.kvs if kv[0] not in a.keys()])
     return b
+
+
+def _prop_branch(rng, names=None):
+    """A branch that succeeds on most objects and evaluates a few names."""
+    names = names or gs.NAMES
+    r = rng.random()
+    if r < 0.75:
+        ks = rng.sample(names, rng.randint(1, min(3, len(names))))
+        return Obj([("properties", Obj([(k, rng.choice([True, True, True, True, Obj([("const", Num("1"))]), Obj([("type", ["number", "string"])])])) for k in ks]))])
+    if r < 0.9:
+        return Obj([("patternProperties", Obj([(rng.choice(["^a", "^[ab]", "c|d", "^[^a]"]), True)]))])
+    return leaf_obj(rng)
+
+
+def _overlap(rng, defs):
+    """anyOf / oneOf whose branches overlap (a LATER successful branch is the only one evaluating some name), behind 0..2 in-place
+    wrappers that hand annotations on."""
+    K = rng.choice(["anyOf", "anyOf", "anyOf", "oneOf"])
+    s = Obj([(K, [_prop_branch(rng) for _ in range(rng.randint(2, 3))])])
+    if rng.random() < 0.2:
+        s.set("properties", Obj([(rng.choice(gs.NAMES), True)]))
+    for _ in range(rng.choice([0, 0, 1, 1, 2])):
+        s = keep(rng, s, defs)
+    return s
+
+
+def dep_case(rng):
+    """In-place applicators reached ONLY through dependentSchemas below an enclosing unevaluatedProperties: the entry of a trigger name
+    holds (behind 0..2 annotation-preserving wrappers) an anyOf / oneOf of overlapping `properties` branches; the trigger is usually
+    present in the instance and evaluated by an adjacent `properties`; the dependentSchemas keyword sits in the unevaluated* schema itself
+    or one in-place application below it. No Loader documents, no dynamic references."""
+    defs = []
+    trig = rng.choice(gs.NAMES)
+    entries = [(trig, _overlap(rng, defs))]
+    if rng.random() < 0.25:
+        t2 = rng.choice([n for n in gs.NAMES if n != trig])
+        entries.append((t2, rng.choice([_overlap(rng, defs), _prop_branch(rng), True])))
+        rng.shuffle(entries)
+    dep = Obj([("dependentSchemas", Obj(entries))])
+    if rng.random() < 0.75:
+        dep.set("properties", Obj([(trig, True)]))
+    if rng.random() < 0.35:
+        dep = keep(rng, dep, defs)
+    root = Obj(list(dep.kvs))
+    root.set("unevaluatedProperties", rng.choice([False, False, False, Obj([("type", "string")]), Obj([("const", "a")])]))
+    if defs:
+        root.set("$defs", Obj(defs))
+    insts = []
+    for _ in range(8):
+        ks = [k for k in gs.NAMES if k == trig and rng.random() < 0.8 or k != trig and rng.random() < 0.5]
+        rng.shuffle(ks)
+        insts.append(Obj([(k, rng.choice([Num("1"), Num("1"), "a", None])) for k in ks]))
+    insts.append(rng.choice([Num("1"), "a", None]))
+    return {"op": "validate", "args": {"schema": root, "insts": insts}, "meta": {"kw": gs.count_keywords(root), "kind7": "obj", "dep": True}}
+
+
+WIDE = [x + y for x in "abcd" for y in "1234"]
+WIDE_PATS = ["^a", "^b", "^[cd]", "1$", "[12]$", "^a[34]$", "^d"]
+
+
+def wide_case(rng):
+    """WIDE objects: instances with 8..14 properties from a pool of 16 names against schemas in which many (usually 9 or more) distinct
+    names are evaluated by several contributors — `properties` / `patternProperties` in allOf / anyOf / $ref / dependentSchemas branches
+    and in the root, names evaluated twice or more by different contributors — under unevaluatedProperties false / a schema; instances
+    hold all, all but one or two, or a random part of the evaluated names plus zero to two names nobody evaluates."""
+    defs = []
+    parts, union = [], set()
+
+    def contributor():
+        if rng.random() < 0.8:
+            ks = rng.sample(WIDE, rng.randint(2, 6))
+            union.update(ks)
+            return Obj([("properties", Obj([(k, rng.choice([True] * 6 + [Obj([("type", ["number", "string", "null"])])])) for k in ks]))])
+        pat = rng.choice(WIDE_PATS)
+        union.update(k for k in WIDE if re.search(pat, k))
+        return Obj([("patternProperties", Obj([(pat, True)]))])
+
+    target = rng.choice([6, 9, 9, 10, 11, 12, 13])
+    while len(union) < target and len(parts) < 8:
+        c = contributor()
+        r = rng.random()
+        if r < 0.15:
+            c = keep(rng, c, defs)
+        elif r < 0.25:
+            c = Obj([("anyOf", [c, contributor()])])
+        elif r < 0.3:
+            c = Obj([("dependentSchemas", Obj([(rng.choice(WIDE), c)]))])
+        parts.append(c)
+    # names evaluated once more by a later contributor
+    for _ in range(rng.choice([0, 1, 1, 2])):
+        if union:
+            ks = rng.sample(sorted(union), min(len(union), rng.randint(1, 4)))
+            parts.append(Obj([("properties", Obj([(k, True) for k in ks]))]))
+    root = Obj([(rng.choice(["allOf", "allOf", "allOf", "anyOf"]), parts)])
+    if rng.random() < 0.5 and union:
+        ks = rng.sample(sorted(union), min(len(union), rng.randint(1, 5))) + rng.sample(WIDE, rng.randint(0, 2))
+        ks = list(dict.fromkeys(ks))
+        union.update(ks)
+        root.set("properties", Obj([(k, True) for k in ks]))
+    root.set("unevaluatedProperties", rng.choice([False, False, False, Obj([("type", "string")]), Obj([("const", "a")])]))
+    if defs:
+        root.set("$defs", Obj(defs))
+    ev, un = sorted(union), [k for k in WIDE if k not in union]
+    insts = []
+    for _ in range(7):
+        if rng.random() < 0.7:
+            ks = rng.sample(ev, max(0, len(ev) - rng.choice([0, 0, 1, 2, 3]))) + rng.sample(un, min(len(un), rng.choice([0, 1, 1, 2])))
+        else:
+            ks = rng.sample(WIDE, rng.randint(8, 14))
+        rng.shuffle(ks)
+        insts.append(Obj([(k, rng.choice([Num("1"), Num("1"), "a", None])) for k in ks]))
+    return {"op": "validate", "args": {"schema": root, "insts": insts},
+            "meta": {"kw": gs.count_keywords(root), "kind7": "obj", "wide": len(union)}}
 
 
 def long_case(rng):
@@ -357,6 +479,10 @@ def gen_case(rng, tier):
         return deep_case(rng)
     if r0 < 0.14:
         return ext_case(rng, tier)
+    if r0 < 0.19:
+        return dep_case(rng)
+    if r0 < 0.25:
+        return wide_case(rng)
     kind = "obj" if rng.random() < 0.55 else "arr"
     defs = []
     depth = rng.choice([1, 2, 3, 4 if tier == "thorough" else 3])
